@@ -19,11 +19,12 @@ MANIFEST = {
 }
 
 CONDS = ['pair_small', 'pair_two_cells', 'triple_small', 'capped']
+MARK_POOL = ['', 'None', 'nan', 'NaN', 'null', '0']      # ordinary strings that happen to spell a missing-value marker
 RPOOL = ['', '1', '11', 'a']      # adversarial cell values for the real-pandas condition: prefixes/suffixes of one another, empty, digits
 INFO = {
     'engine': 'crosshair-tool 0.0.110 + z3',
     'explanation': 'see level text',
-    'bounds': {'quick': dict({c: 'see precondition in harness/ch_c10.py' for c in CONDS}, **{'real-frames-index': '3 rows (one repeats another), cells from 3 adversarial values, row index default/reversed/rotated/gapped/string labels, orders 2..3, real pandas'}),
+    'bounds': {'quick': dict({c: 'see precondition in harness/ch_c10.py' for c in CONDS}, **{'real-frames-markers': '2 rows x 2 features, cells from strings that spell missing-value markers (None, nan, NaN, null, 0, empty)', 'real-frames-index': '3 rows (one repeats another), cells from 3 adversarial values, row index default/reversed/rotated/gapped/string labels, orders 2..3, real pandas'}),
                'thorough': dict({c: 'same conditions with one more symbolic character per string, longer per-condition budget' for c in CONDS}, **{'real-frames-index': 'as quick'})},
     'outside': ['interaction order 4', '64-bit hash collisions', 'frames with more than 3 rows (row-wise rule)'],
     'assumptions': ['pandas replaced by the list-backed sympd stand-in (validated differentially)', 'xxhash replaced by an injective stand-in', 'SequenceConcatenation.__eq__ of crosshair 0.0.110 patched (see DESIGN 2.3)'],
@@ -44,6 +45,8 @@ def jobs(tier):
                 out.append({'cond': 'real-frames', 'pins': {'lpos': lpos, 'order': order, 'c0': c0}, 'weight': 5, 'label': f'label@{lpos},order={order},c0={c0}'})
     for order, ml in ((2, 4), (3, 2)):
         out.append({'cond': 'z3-strings', 'order': order, 'maxlen': ml, 'pins': {}, 'weight': 50, 'label': f'order={order},cells<= {ml} chars'})
+    for lpos in range(3):
+        out.append({'cond': 'real-frames-markers', 'pins': {'lpos': lpos}, 'weight': 10, 'label': f'2 features with values from {MARK_POOL}, label@{lpos}'})
     for ix in range(len(INDEX_KINDS)):
         for lpos in (0, 3):
             out.append({'cond': 'real-frames-index', 'pins': {'ix': ix, 'lpos': lpos}, 'weight': 8, 'label': f'3 rows, row index {list(INDEX_KINDS)[ix]}, label@{lpos}'})
@@ -103,9 +106,9 @@ def real_check(cols, rows, order, cap=100, index='default'):
 def run_real(job):
     loader.record_functions('outrank/core_ranking.py', ['compute_combined_features', 'prior_combinations_sample'])
     st = {}
-    NF = 4 if job['cond'] == 'real-frames-4' else 3
+    NF = 4 if job['cond'] == 'real-frames-4' else (2 if job['cond'] == 'real-frames-markers' else 3)
     IX = job['cond'] == 'real-frames-index'      # three rows (the third repeats one of the first two) under every kind of row index
-    POOL = RPOOL[:3] if NF == 4 or IX else RPOOL
+    POOL = RPOOL[:3] if NF == 4 or IX else (MARK_POOL if NF == 2 else RPOOL)
     KINDS = list(INDEX_KINDS)
 
     def setup(ctx):
@@ -113,7 +116,7 @@ def run_real(job):
         for v in st['c']:
             ctx.assume(v >= 0, v < len(POOL))
         st['lpos'], st['order'] = z3.Int('lpos'), z3.Int('order')
-        ctx.assume(st['lpos'] >= 0, st['lpos'] <= NF, st['order'] >= 2, st['order'] <= 3)
+        ctx.assume(st['lpos'] >= 0, st['lpos'] <= NF, st['order'] >= 2, st['order'] <= (2 if NF == 2 else 3))
         st['ix'], st['dup'] = z3.Int('ix'), z3.Int('dup')
         ctx.assume(st['ix'] >= 0, st['ix'] < len(KINDS), st['dup'] >= 0, st['dup'] <= 1)
         if not IX:
@@ -192,7 +195,7 @@ def run_z3strings(job):
 def run_job(job):
     if job['cond'] == 'z3-strings':
         return run_z3strings(job)
-    if job['cond'] in ('real-frames', 'real-frames-4', 'real-frames-index'):
+    if job['cond'] in ('real-frames', 'real-frames-4', 'real-frames-index', 'real-frames-markers'):
         return run_real(job)
     fname = job['cond'] + ('_twin' if job.get('twin') else '')
     r = chrun.run_condition('harness.ch_c10', fname, TIMEOUT[job['tier']], loader.REPO, extra_env={'CH_EXTRA': '1' if job['tier'] == 'thorough' else '0'})
